@@ -613,6 +613,9 @@ func poolsByNamespace(pools map[string]*Pool) map[string][]string {
 			poolsForNamespace[namespace] = append(poolsForNamespace[namespace], pool.Name)
 		}
 	}
+	for namespace := range poolsForNamespace {
+		sort.Strings(poolsForNamespace[namespace])
+	}
 	return poolsForNamespace
 }
 
